@@ -2122,5 +2122,5 @@ register("C13", run_C13, ["C13.C13_use_sites", "C13.C13_type_order", "C13.C13_ty
 register("C14", run_C14, ["C14.C14_ofList_perm", "C14.C14_table_order_independent"])
 register("C15", run_C15, ["C15.C15_spec", "C15.C15_roundtrip", "C15.C15_fresh"])
 register("C16", run_C16, ["C16.C16_layout_insensitive", "C16.C16_layout_at_boundary", "C16.C16_insert_layout_end_to_end", "C16.C16_leading_whitespace_end_to_end", "C16.C16_translation_invariant", "C16.C16_leading_whitespace", "C16.C16_skip_whitespace", "C16.C16_tokenize_eq_spec", "C16.C16_skip_comment", "C16.C16_trailing_comment"])
-register("C17", run_C17, ["C17.C17_cells_lalr1", "C17.C17_is_lalr1", "C17.C17_items_exact", "C17.C17_one_state_per_core", "C17.C17_cells", "C17.C17_empty_table"])
+register("C17", run_C17, ["C17.C17_cells_lalr1", "C17.C17_transitions_lalr1", "C17.C17_is_lalr1", "C17.C17_items_exact", "C17.C17_one_state_per_core", "C17.C17_cells", "C17.C17_empty_table"])
 register("C18", run_C18, ["C18.C18_sorted", "C18.C18_refines", "C18.C18_contains", "C18.C18_iter", "C18.C18_ext"])
